@@ -312,6 +312,29 @@ theorem C09_units_equiv (dpi fs : Rat) (b : Rat) :
   simp only [Convert.convertLength, id]
   refine ⟨by ring, by ring, by ring, ?_, ?_⟩ <;> field_simp
 
+/-- the same for `font-size`, which is resolved by its own copy of the unit table
+    (`resolve_font_size`): every unit agrees with its pixel equivalent at the configured DPI,
+    and em / ex / % with their definition relative to the inherited size -/
+theorem C09_font_size_units_equiv (dpi fs n : Rat) :
+    Convert.fontSizeStep id dpi fs ⟨n, .inch⟩ = Convert.fontSizeStep id dpi fs ⟨n * dpi, .px⟩ ∧
+    Convert.fontSizeStep id dpi fs ⟨n, .pt⟩ = Convert.fontSizeStep id dpi fs ⟨n * dpi / 72, .px⟩ ∧
+    Convert.fontSizeStep id dpi fs ⟨n, .pc⟩ = Convert.fontSizeStep id dpi fs ⟨n * dpi / 6, .px⟩ ∧
+    Convert.fontSizeStep id dpi fs ⟨n, .cm⟩ = Convert.fontSizeStep id dpi fs ⟨n * dpi / (254 / 100), .px⟩ ∧
+    Convert.fontSizeStep id dpi fs ⟨n, .mm⟩ = Convert.fontSizeStep id dpi fs ⟨n * dpi / (254 / 10), .px⟩ ∧
+    Convert.fontSizeStep id dpi fs ⟨n, .em⟩ = Convert.fontSizeStep id dpi fs ⟨n * fs, .px⟩ ∧
+    Convert.fontSizeStep id dpi fs ⟨n, .ex⟩ = Convert.fontSizeStep id dpi fs ⟨n * fs / 2, .px⟩ ∧
+    Convert.fontSizeStep id dpi fs ⟨n, .percent⟩ = Convert.fontSizeStep id dpi fs ⟨n * fs / 100, .px⟩ ∧
+    Convert.fontSizeStep id dpi fs ⟨n, .none⟩ = Convert.fontSizeStep id dpi fs ⟨n, .px⟩ := by
+  simp only [Convert.fontSizeStep, id]
+  refine ⟨trivial, trivial, trivial, trivial, trivial, trivial, trivial, ?_, trivial⟩
+  ring
+
+/-- and a `font-size` length means the same whether it is resolved by `resolve_font_size` or
+    (as any other length) by `convert_length` -/
+theorem C09_font_size_agrees_with_lengths (dpi fs n b : Rat) (u : Convert.LUnit) (hu : u ≠ .percent) :
+    Convert.fontSizeStep id dpi fs ⟨n, u⟩ = Convert.convertLength id ⟨n, u⟩ b ⟨dpi, fs⟩ := by
+  cases u <;> simp_all [Convert.fontSizeStep, Convert.convertLength]
+
 /-! non-vacuity -/
 example : plain "rect" "fill" "red" := by unfold plain; decide +kernel
 example : lookup (cascadeElement "rect" [] [("fill", "red")] [("fill", "blue", false), ("fill", "green", true), ("fill", "black", true)]) "fill"
